@@ -17,6 +17,8 @@ class P:
     ref: Optional["P"] = None
     d: Dict[str, int] = field(default_factory=dict)
     name: str = ""
+    f: float = 0.0
+    fs: frozenset = frozenset()
 
     def m(self, k):
         return self.a + k
